@@ -142,6 +142,18 @@ claim("C10",
       "Trusted: clang 14 as parser; libc function meanings; helper contract table in checks/c10.py; no int overflow modelling.",
       "DESIGN.md §4 C10")
 
+claim("C06",
+      "typestate/pairing analysis over the statement tables and emitted release code (alloc/free of temporaries, "
+      "new/destructor type agreement, slot-0 convention, idempotent release, Python reference hand-over on normal and "
+      "fail paths) + bounds proofs of helper bodies shared with C10",
+      "Decides from the current source the structural necessary conditions of exactly-once release: temporaries are "
+      "freed by the matching helper on the same variable, every heap object handed to the caller carries a destructor "
+      "of its own type and a stored index, index 0 is the registered no-op, the release function resets the capsule, "
+      "Fortran final/delete share one release function, Python converter references are released or handed over on "
+      "every exit, and helpers stay inside their buffers. Call histories of compiled code are not executed.",
+      "Trusted: python ast, table model, clang as parser for R5; CPython new-reference API list in the checker.",
+      "DESIGN.md §4 C06")
+
 PENDING = "check not built yet in this session (fail-closed: not claimed until its rules run clean)"
-for _p in ["C01","C02","C03","C06","C18"]:
+for _p in ["C01","C02","C03","C18"]:
     na(_p, PENDING)
